@@ -57,3 +57,59 @@ fn(B + "fetchmany", cls="BufStrategy", props=["C10"], types=dict(T, size="v"), c
                   ensures=[f"contents(result) == {OTOTAL}[:size]", f"{TOTAL} == {OTOTAL}[len(contents(result)):]"]),
              dict(name="none", requires=["size is None"], ensures=[f"len({TOTAL}) == 0"])],
    may_raise={"BaseException": "True"}, modifies=MOD)
+
+# ---- FullyBufferedCursorFetchStrategy: everything is in the deque already; view total = contents(self._rowbuffer)
+F = "engine/cursor.py::FullyBufferedCursorFetchStrategy."
+cls("FBStrategy", fields={"_rowbuffer": "deque"}, methods={n: F + n for n in ["fetchone", "fetchmany", "fetchall"]})
+FT = "contents(self._rowbuffer)"
+OFT = "old(contents(self._rowbuffer))"
+FMOD = ["self._rowbuffer", "contents(self._rowbuffer)", "result.soft_closed"]
+FCAL = {"collections.deque": "newdeque",
+        "result._soft_close": dict(fn="engine/cursor.py::CursorResult._soft_close@fb", recv="result", args=["self"])}
+fn("engine/cursor.py::CursorResult._soft_close@fb", abstract=True, cls="ResultObj", params=["self", "strategy"], types={"strategy": "FBStrategy"},
+   returns="none", modifies=["self.soft_closed", "contents(strategy._rowbuffer)"],
+   ensures=["self.soft_closed", "len(strategy._rowbuffer) == 0"], may_raise={"BaseException": "True"},
+   notes="CursorResult._soft_close -> strategy.soft_close clears the row buffer")
+fn(F + "fetchone", cls="FBStrategy", props=["C10"], types=T, callees=FCAL,
+   ensures=[f"implies(len({OFT}) == 0, result is None and len({FT}) == 0)",
+            f"implies(len({OFT}) > 0, result is {OFT}[0] and {FT} == {OFT}[1:])"],
+   may_raise={"BaseException": "True"}, modifies=FMOD)
+fn(F + "fetchall", cls="FBStrategy", props=["C10"], types=T, callees=FCAL, returns="deque",
+   ensures=[f"contents(result) == {OFT}", f"len({FT}) == 0"],
+   may_raise={"BaseException": "True"}, modifies=FMOD)
+fn(F + "fetchmany", cls="FBStrategy", props=["C10"], types=dict(T, size="v", rows="list"), callees=dict(FCAL, **{"self.fetchall": F + "fetchall"}), returns="v",
+   variants=[dict(name="sized", types={"size": "int"},
+                  ensures=[f"contents(result) == {OFT}[:ite(size < 0, 0, size)]", f"implies(len(contents(result)) > 0, {FT} == {OFT}[len(contents(result)):])",
+                           # an empty batch (buffer exhausted, or size <= 0) soft-closes the result, which empties the buffer
+                           f"implies(len(contents(result)) == 0, len({FT}) == 0)"]),
+             dict(name="none", requires=["size is None"], ensures=[f"len({FT}) == 0", f"contents(result) == {OFT}"])],
+   may_raise={"BaseException": "True"}, modifies=FMOD)
+
+# ---- CursorFetchStrategy (unbuffered, the default): rows pass through from the DBAPI cursor unchanged; the result is
+# soft-closed exactly when the cursor reports exhaustion (None / empty batch / after fetchall)
+P = "engine/cursor.py::CursorFetchStrategy."
+cls("PlainStrategy", fields={}, methods={n: P + n for n in ["fetchone", "fetchmany", "fetchall"]})
+fn("dbapi::Cursor.fetchone", abstract=True, cls="DBCursor", params=["self"], returns="v",
+   modifies=["self.rem"], ensures=["implies(len(old(self.rem)) == 0, result is None and len(self.rem) == 0)",
+                                   "implies(len(old(self.rem)) > 0, result is old(self.rem)[0] and result is not None and self.rem == old(self.rem)[1:])"],
+   may_raise={"BaseException": "True"}, notes="PEP 249 fetchone: next row or None")
+import pyvc.contract as _pc  # noqa: E402
+_pc.CLASSES["DBCursor"].methods["fetchone"] = "dbapi::Cursor.fetchone"
+fn("engine/cursor.py::CursorResult._soft_close@plain", abstract=True, cls="ResultObj", params=["self"], returns="none",
+   modifies=["self.soft_closed"], ensures=["self.soft_closed"], may_raise={"BaseException": "True"})
+PCAL = {"self.handle_exception": "engine/cursor.py::CursorFetchStrategy.handle_exception",
+        "result._soft_close": dict(fn="engine/cursor.py::CursorResult._soft_close@plain", recv="result", args=[])}
+PMOD = ["dbapi_cursor.rem", "result.soft_closed"]
+REM, OREM = "dbapi_cursor.rem", "old(dbapi_cursor.rem)"
+RC = "result.soft_closed"
+fn(P + "fetchone", cls="PlainStrategy", props=["C10"], types=dict(T, row="v"), callees=PCAL,
+   ensures=[f"implies(len({OREM}) == 0, result is None)",
+            f"implies(len({OREM}) > 0, result is {OREM}[0] and {REM} == {OREM}[1:])"],
+   may_raise={"Exception": "True"}, modifies=PMOD)
+fn(P + "fetchmany", cls="PlainStrategy", props=["C10"], types=dict(T, size="int", l="list"), callees=PCAL, returns="list",
+   requires=["size is not None", "size >= 1"],
+   ensures=[f"contents(result) == {OREM}[:size]", f"{REM} == {OREM}[size:]"],
+   may_raise={"Exception": "True"}, modifies=PMOD)
+fn(P + "fetchall", cls="PlainStrategy", props=["C10"], types=dict(T, rows="list"), callees=PCAL, returns="list",
+   ensures=[f"contents(result) == {OREM}", f"len({REM}) == 0"],
+   may_raise={"Exception": "True"}, modifies=PMOD)
